@@ -78,7 +78,7 @@ func (f *PeekChar) Call(s *slip.Scope, args slip.List, depth int) slip.Object {
 	ss, _ := is.(slip.Stream)
 	rs, ok := is.(io.RuneScanner)
 	if !ok {
-		slip.TypePanic(s, depth, "stream", args[1], "input-stream")
+		slip.TypePanic(s, depth, "stream", is, "input-stream")
 	}
 	switch tpt := pt.(type) {
 	case nil:
